@@ -1,3 +1,222 @@
-From HV Require Import C11.Model C11.Lemmas.
-Theorem stub_t : True. Proof. exact stub. Qed.
-Print Assumptions stub_t.
+(** C11 property theorems: statements only; the proofs are in Lemmas.v.  All objects are the executable
+    definitions of Model.v that the correspondence check runs against HoloPy (conv = Mapper.convert_to_map,
+    get_index / fresh_name = get_parameter_index / add_parameter, read_map, edit_map / edit_idx =
+    edit_map_indices, add_tie, model_init = Model.__init__, sc_from = from_parameters, scat_params =
+    _parameters, validate_scatterer).  [ap] (the meaning of the transformation symbols) is universally
+    quantified wherever it occurs; the end-to-end statements use the executed instance [apply_fn]. *)
+From Coq Require Import ZArith List Bool String Arith Permutation.
+From HV Require Import C11.Model C11.Lemmas C11.Findings.
+Import ListNotations.
+Local Open Scope string_scope.
+Local Open Scope list_scope.
+
+(** ---- names ---------------------------------------------------------------------------------------- *)
+(* add_parameter's unbounded "while name in names" loop: S(length names) iterations are enough, more fuel
+   gives the same name, and the name is free *)
+Theorem fresh_name_terminates : forall base nms extra,
+  fresh_loop (S (List.length nms) + extra) base 0 nms = fresh_loop (S (List.length nms)) base 0 nms /\
+  ~ In (fresh_loop (S (List.length nms)) base 0 nms) nms.
+Proof. exact fresh_name_terminates_l. Qed.
+Print Assumptions fresh_name_terminates.
+
+(* ... and it is the first free candidate base_j *)
+Theorem fresh_name_is_first_free : forall base nms fuel k,
+  exists j, fresh_loop fuel base k nms = cand base (k + j) /\ j <= fuel /\
+            forall i, i < j -> In (cand base (k + i)) nms.
+Proof. exact fresh_loop_first. Qed.
+Print Assumptions fresh_name_is_first_free.
+
+(* after any sequence of conversions with one Mapper (any trees, any name prefixes, any prior names, any
+   sharing) the names are pairwise distinct and there is one name per parameter *)
+Theorem names_nodup : forall pname ts st, Inv st -> Inv (snd (conv_seq pname ts st)).
+Proof. exact names_nodup_seq. Qed.
+Print Assumptions names_nodup.
+
+(* ---- one parameter per distinct prior, in first-occurrence order -------------------------------------- *)
+Theorem one_param_per_prior : forall pname ts,
+  let ids := flat_map (fun tn : pv * string => sites (fst tn)) ts in
+  let ps := params (snd (conv_seq pname ts st0)) in
+  ps = add_new [] ids /\ NoDup ps /\ (forall id, In id ps <-> In id ids).
+Proof. exact one_param_per_prior_seq. Qed.
+Print Assumptions one_param_per_prior.
+
+(* [add_new] is the usual "keep the first occurrence, skip what was seen" *)
+Theorem parameters_first_occurrence_order : forall ids ps, add_new ps ids = ps ++ first_occ ps ids.
+Proof. exact add_new_first_occ. Qed.
+Print Assumptions parameters_first_occurrence_order.
+
+(* ---- every value lands at every site of its prior ------------------------------------------------------ *)
+(* one tree, any Mapper state before, any parameter list [final] that extends the one after (later
+   conversions only append): nested lists / dicts (None entries dropped) / xarrays / complex /
+   transformations of any depth *)
+Theorem read_convert : forall pname ap t name st final vals,
+  ext (params (snd (conv pname t name st))) final ->
+  read_map ap (fst (conv pname t name st)) vals = subst ap (sig final vals) t.
+Proof. exact read_convert_l. Qed.
+Print Assumptions read_convert.
+
+Theorem read_convert_sequence : forall pname ap ts st final vals,
+  ext (params (snd (conv_seq pname ts st))) final ->
+  map (fun m => read_map ap m vals) (fst (conv_seq pname ts st)) =
+  map (fun tn : pv * string => subst ap (sig final vals) (fst tn)) ts.
+Proof. exact read_convert_seq. Qed.
+Print Assumptions read_convert_sequence.
+
+(* [sig] really is "the value of the i-th parameter": *)
+Theorem value_of_ith_parameter : forall ps vals i,
+  NoDup ps -> i < List.length ps -> sig ps vals (nth i ps 0) = nth i vals VErr.
+Proof. exact sig_at_param. Qed.
+Print Assumptions value_of_ith_parameter.
+
+(* Model.__init__: the four maps read with the model's own parameter order *)
+Theorem model_maps_read_back : forall pname s th op mo,
+  let m := model_init pname s th op mo in
+  let sd := dict_pv (fun x => x) (scat_params s) in
+  params (m_st m) = add_new [] (sites sd ++ sites th ++ sites op ++ sites mo) /\
+  Inv (m_st m) /\
+  forall ap vals, let sg := sig (params (m_st m)) vals in
+    read_map ap (m_scat m) vals = subst ap sg sd /\
+    read_map ap (m_theory m) vals = subst ap sg th /\
+    read_map ap (m_optics m) vals = subst ap sg op /\
+    read_map ap (m_model m) vals = subst ap sg mo.
+Proof. exact model_init_ok. Qed.
+Print Assumptions model_maps_read_back.
+
+(* end to end through _create_dummy_scatterer and from_parameters ("i:key" flattening), for scatterers
+   built from simple scatterers with distinct argument names and (nested) collections of them *)
+Theorem scatterer_from_parameters_spec : forall pname s th op mo vals,
+  good s -> no_none s ->
+  let m := model_init pname s th op mo in
+  scatterer_from_parameters m vals = scat_subst apply_fn (sig (params (m_st m)) vals) s.
+Proof. exact scatterer_from_parameters_l. Qed.
+Print Assumptions scatterer_from_parameters_spec.
+
+(* ---- guesses ------------------------------------------------------------------------------------------- *)
+Theorem guess_values_give_guess_tree : forall pname ap (g : nat -> val) t name,
+  let '(m, st') := conv pname t name st0 in
+  read_map ap m (map g (params st')) = subst ap g t.
+Proof. exact guess_l. Qed.
+Print Assumptions guess_values_give_guess_tree.
+
+Theorem guess_scatterer : forall pname pguess s,
+  good s -> no_none s ->
+  validate_scatterer pname pguess s = scat_subst apply_fn (fun id => vnum (pguess id)) s.
+Proof. exact guess_scatterer_l. Qed.
+Print Assumptions guess_scatterer.
+
+(* ---- dict = list ----------------------------------------------------------------------------------------- *)
+Theorem dict_vs_list : forall m d vals,
+  Inv (m_st m) -> List.length vals = List.length (names (m_st m)) ->
+  Permutation d (combine (names (m_st m)) vals) ->
+  pars_of_dict m d = vals.
+Proof. exact dict_vs_list_l. Qed.
+Print Assumptions dict_vs_list.
+
+(* ---- ties --------------------------------------------------------------------------------------------------- *)
+(* edit_map_indices' shift formula = position after deleting the positions J = indices[1:] *)
+Theorem edit_index_is_position : forall i0 J, asc (S i0) J ->
+  forall old,
+    (In old (i0 :: J) -> edit_idx (i0 :: J) old = i0) /\
+    (~ In old J -> forall {A} (l : list A) d, nth (edit_idx (i0 :: J) old) (drop_pos J 0 l) d = nth old l d).
+Proof. exact edit_index_is_position_l. Qed.
+Print Assumptions edit_index_is_position.
+
+(* the descending "del l[index]" loop removes exactly the positions indices[1:], i.e. |I|-1 entries *)
+Theorem tie_removes_duplicates : forall {A} i0 J (l : list A),
+  asc (S i0) J -> (forall j, In j J -> j < List.length l) ->
+  del_desc (i0 :: J) l = drop_pos J 0 l /\
+  List.length (del_desc (i0 :: J) l) + List.length J = List.length l.
+Proof. exact @tie_removes_duplicates_l. Qed.
+Print Assumptions tie_removes_duplicates.
+
+Theorem tie_semantics : forall ap i0 J vals, asc (S i0) J ->
+  (forall j, In j J -> nth j vals VErr = nth i0 vals VErr) ->
+  forall m, read_map ap (edit_map (i0 :: J) m) (drop_pos J 0 vals) = read_map ap m vals.
+Proof. exact tie_semantics_l. Qed.
+Print Assumptions tie_semantics.
+
+(* Model.add_tie as a whole (sorting included), for distinct tie names *)
+Theorem add_tie_spec : forall pcls tie new_name m m',
+  Inv (m_st m) -> NoDup tie -> add_tie pcls tie new_name m = Some m' ->
+  exists i0 J,
+    asc (S i0) J /\ S (List.length J) = List.length tie /\
+    (forall j, In j (i0 :: J) -> exists p, In p tie /\ index_of p (names (m_st m)) = Some j) /\
+    params (m_st m') = drop_pos J 0 (params (m_st m)) /\
+    names (m_st m') = (match new_name with Some n => set_nth i0 n | None => fun l => l end)
+                        (drop_pos J 0 (names (m_st m))) /\
+    List.length (params (m_st m')) + List.length J = List.length (params (m_st m)) /\
+    List.length (names (m_st m')) = List.length (params (m_st m')) /\
+    (match new_name with
+     | None => True
+     | Some n => ~ In n (drop_pos J 0 (names (m_st m)))
+     end -> NoDup (names (m_st m'))) /\
+    m_dummy m' = m_dummy m /\
+    forall ap vals, (forall j, In j J -> nth j vals VErr = nth i0 vals VErr) ->
+      let vals' := drop_pos J 0 vals in
+      read_map ap (m_scat m') vals' = read_map ap (m_scat m) vals /\
+      read_map ap (m_theory m') vals' = read_map ap (m_theory m) vals /\
+      read_map ap (m_optics m') vals' = read_map ap (m_optics m) vals /\
+      read_map ap (m_model m') vals' = read_map ap (m_model m) vals.
+Proof. exact add_tie_ok. Qed.
+Print Assumptions add_tie_spec.
+
+(* ---- scatterer parameter dictionaries ------------------------------------------------------------------------ *)
+Theorem flatten_unflatten_keys : forall {A} cls (ms : list (scat A)) j x,
+  nth_error ms j = Some x -> collect j (scat_params (SGroup cls ms)) = scat_params x.
+Proof. exact @flatten_unflatten_keys_l. Qed.
+Print Assumptions flatten_unflatten_keys.
+
+(* from_parameters with a complete dictionary overwrites every value of the template, nothing else *)
+Theorem from_parameters_places_every_value : forall {A} (s : scat A), good s -> forall (f g : A -> val),
+  sc_from (smap f s) (vmap g (scat_params s)) = smap g s.
+Proof. exact @from_parameters_full. Qed.
+Print Assumptions from_parameters_places_every_value.
+
+Theorem rebuild_id : forall s : scat val, good s -> sc_from s (scat_params s) = s.
+Proof. exact rebuild_id_l. Qed.
+Print Assumptions rebuild_id.
+
+(* ---- the open defect, as a statement about the faithful model --------------------------------------------------- *)
+Theorem rigid_cluster_in_model_loses_parameters :
+  params (m_st rigid_model) = [0] /\ names (m_st rigid_model) = ["translation.0"] /\
+  lookup "translation" (as_dict (read_map apply_fn (m_scat rigid_model) [vnum 5]))
+    = Some (VList [vnum 5; vnum 0; vnum 0]) /\
+  (forall v w, scatterer_from_parameters rigid_model [v] = scatterer_from_parameters rigid_model [w]) /\
+  scatterer_from_parameters rigid_model [vnum 5]
+    <> scat_subst apply_fn (sig (params (m_st rigid_model)) [vnum 5]) rigid_example.
+Proof. exact rigid_model_params_refuted. Qed.
+Print Assumptions rigid_cluster_in_model_loses_parameters.
+
+(** ---- non-vacuity: the hypotheses are satisfiable by concrete, non-trivial objects ------------------------------- *)
+(* two spheres sharing one prior object (id 0) for n, two priors both explicitly named "x" (collision ->
+   x, x_0), an unnamed prior in a list (center.1 -> "1:center.1"), and a transformation *)
+Definition ex_scat : scat pv :=
+  SGroup "Spheres"
+    [SLeaf "Sphere" [("n", PPrior 0); ("r", PPrior 1); ("center", PNode KList [PConst (CNum 0); PConst (CNum 0); PConst (CNum 0)])];
+     SLeaf "Sphere" [("n", PPrior 0); ("r", PPrior 2);
+                     ("center", PNode KList [PConst (CNum 3); PPrior 3;
+                                             PNode (KTrans FAdd None) [PPrior 1; PConst (CNum 1)]])]].
+Definition ex_pname (id : nat) : option string := match id with 1 | 2 => Some "x" | _ => None end.
+Definition ex_model : model := model_init ex_pname ex_scat (PNode (KDict []) []) (PNode (KDict []) []) (PNode (KDict []) []).
+
+Example hyps_satisfiable :
+  good ex_scat /\ no_none ex_scat /\ Inv st0 /\
+  names (m_st ex_model) = ["n"; "x"; "x_0"; "1:center.1"] /\ params (m_st ex_model) = [0; 1; 2; 3]%nat /\
+  asc 2 [2; 3]%nat /\
+  (exists m', add_tie (fun _ => 0%Z) ["x_0"; "x"] (Some "tied") ex_model = Some m' /\
+              names (m_st m') = ["n"; "tied"; "1:center.1"]) /\
+  scatterer_from_parameters ex_model [vnum 7; vnum 8; vnum 9; vnum 10] =
+    SGroup "Spheres"
+      [SLeaf "Sphere" [("n", vnum 7); ("r", vnum 8); ("center", VList [vnum 0; vnum 0; vnum 0])];
+       SLeaf "Sphere" [("n", vnum 7); ("r", vnum 9); ("center", VList [vnum 3; vnum 10; vnum 9])]].
+Proof.
+  split; [|split; [|split; [|split; [|split; [|split; [|split]]]]]].
+  - constructor. repeat constructor; simpl; intuition congruence.
+  - unfold no_none. vm_compute. repeat constructor.
+  - exact Inv_st0.
+  - vm_compute. reflexivity.
+  - vm_compute. reflexivity.
+  - simpl. repeat split; auto with arith.
+  - eexists. split; vm_compute; reflexivity.
+  - vm_compute. reflexivity.
+Qed.
